@@ -14,7 +14,7 @@ Theorem wait_after_all_submits :
   forall (V : Type) (vop : V -> V -> V) (hd : bool) (iv junk : V) (ns : nat) (c : Z)
          (progs : list (list (op V))) (sched : list nat) (i : nat) (t : thr V),
     let s := exec V vop (start V hd iv junk ns c progs) sched in
-    clean V s -> nth_error (thrs V s) i = Some t -> (t_got V t <> [] \/ t_pc V t = PCopy V) -> all_arrived V s.
+    clean V s -> nth_error (thrs s) i = Some t -> (t_got t <> [] \/ t_pc t = PCopy) -> all_arrived V s.
 Proof. exact wait_after_all_submits_start. Qed.
 Print Assumptions wait_after_all_submits.
 
@@ -22,15 +22,15 @@ Print Assumptions wait_after_all_submits.
 Theorem wait_after_all_submits_after_reset :
   forall (V : Type) (vop : V -> V -> V) (s0 : state V) (n : Z) (progs : list (list (op V))) (sched : list nat) (i : nat) (t : thr V),
     let s := exec V vop (reset V s0 n progs) sched in
-    clean V s -> nth_error (thrs V s) i = Some t -> (t_got V t <> [] \/ t_pc V t = PCopy V) -> all_arrived V s.
+    clean V s -> nth_error (thrs s) i = Some t -> (t_got t <> [] \/ t_pc t = PCopy) -> all_arrived V s.
 Proof. exact wait_after_all_submits_reset. Qed.
 Print Assumptions wait_after_all_submits_after_reset.
 
 (* the proviso is necessary: an expect that finds the count at zero lets a wait through with a submission outstanding *)
 Theorem wait_without_proviso_refuted :
   let s := exec nat Nat.add (start nat true 0%nat 0%nat 1 1 w_progs) w_sched in
-  exp0 nat s = true /\ over nat s = false /\
-  (exists t, nth_error (thrs nat s) 2 = Some t /\ t_got nat t <> []) /\ (Z.of_nat (decs nat s) < c0 nat s + exps nat s)%Z /\ counter nat s = 1%Z.
+  exp0 s = true /\ over s = false /\
+  (exists t, nth_error (thrs s) 2 = Some t /\ t_got t <> []) /\ (Z.of_nat (decs s) < c0 s + exps s)%Z /\ counter s = 1%Z.
 Proof. exact wait_without_proviso_refuted_lemma. Qed.
 Print Assumptions wait_without_proviso_refuted.
 
@@ -41,8 +41,8 @@ Theorem collate_sees_all :
          (progs : list (list (op V))) (sched : list nat),
     let s := exec V vop (start V hd iv junk ns c progs) sched in
     clean V s ->
-    (forall i t, nth_error (thrs V s) i = Some t -> isCol V t = true -> all_arrived V s) /\
-    (ready V s = true -> all_arrived V s).
+    (forall i t, nth_error (thrs s) i = Some t -> isCol V t = true -> all_arrived V s) /\
+    (ready s = true -> all_arrived V s).
 Proof. exact collate_sees_all_start. Qed.
 Print Assumptions collate_sees_all.
 
@@ -51,8 +51,8 @@ Theorem frozen_after_arrival :
   forall (V : Type) (vop : V -> V -> V) (hd : bool) (iv junk : V) (ns : nat) (c : Z)
          (progs : list (list (op V))) (sched : list nat) (i : nat) (s' : state V) (t : thr V),
     let s := exec V vop (start V hd iv junk ns c progs) sched in
-    counter V s = 0%Z -> nth_error (thrs V s) i = Some t -> step V vop s i = Some s' -> clean V s' ->
-    match t_pc V t with PSlot _ _ _ | PDec _ _ | PAdd _ _ | PEmpty _ => False | _ => True end.
+    counter s = 0%Z -> nth_error (thrs s) i = Some t -> step V vop s i = Some s' -> clean V s' ->
+    match t_pc t with PSlot _ _ | PDec _ | PAdd _ | PEmpty => False | _ => True end.
 Proof. exact frozen_after_arrival_start. Qed.
 Print Assumptions frozen_after_arrival.
 
@@ -62,40 +62,38 @@ Theorem sinc_value_partial_slot_update :
   forall (V : Type) (vop : V -> V -> V),
     (forall a b c : V, vop (vop a b) c = vop a (vop b c)) -> (forall a b : V, vop a b = vop b a) ->
     forall (s : state V) (i : nat) (t : thr V) (v : V) (k : nat) (s' : state V),
-      nth_error (thrs V s) i = Some t -> t_pc V t = PSlot V v k -> (k < length (slots V s))%nat ->
+      nth_error (thrs s) i = Some t -> t_pc t = PSlot v k -> (k < length (slots s))%nat ->
       step V vop s i = Some s' ->
-      submitted V s' = submitted V s ++ [v] /\
-      forall a, reduce V vop (slots V s') a = vop (reduce V vop (slots V s) a) v /\
-                reduce V vop (submitted V s') a = vop (reduce V vop (submitted V s) a) v.
+      submitted s' = submitted s ++ [v] /\
+      forall a, reduce V vop (slots s') a = vop (reduce V vop (slots s) a) v /\
+                reduce V vop (submitted s') a = vop (reduce V vop (submitted s) a) v.
 Proof. exact slot_step_reduce. Qed.
 Print Assumptions sinc_value_partial_slot_update.
 
 (* value, part 2: no other step touches slots or the submitted multiset *)
 Theorem sinc_value_partial_other_steps :
   forall (V : Type) (vop : V -> V -> V) (s : state V) (i : nat) (t : thr V) (s' : state V),
-    nth_error (thrs V s) i = Some t -> (forall v k, t_pc V t <> PSlot V v k) -> step V vop s i = Some s' ->
-    slots V s' = slots V s /\ submitted V s' = submitted V s.
+    nth_error (thrs s) i = Some t -> (forall v k, t_pc t <> PSlot v k) -> step V vop s i = Some s' ->
+    slots s' = slots s /\ submitted s' = submitted s.
 Proof. exact other_step_keeps_slots. Qed.
 Print Assumptions sinc_value_partial_other_steps.
 
 (* value, part 3: what the collation steps and the copy do to result / the delivered value *)
 Theorem sinc_value_partial_collate_steps :
   forall (V : Type) (vop : V -> V -> V) (s : state V) (i : nat) (t : thr V) (s' : state V),
-    nth_error (thrs V s) i = Some t -> step V vop s i = Some s' ->
-    match t_pc V t with
-    | PC0 _ => result V s' = initv V s
-    | PCol _ k => result V s' = vop (result V s) (nth k (slots V s) (initv V s))
-    | PCopy _ => exists t', nth_error (thrs V s') i = Some t' /\ t_got V t' = t_got V t ++ [Some (result V s)]
-    | _ => result V s' = result V s
+    nth_error (thrs s) i = Some t -> step V vop s i = Some s' ->
+    match t_pc t with
+    | PC0 => result s' = initv s
+    | PCol k => result s' = vop (result s) (nth k (slots s) (initv s))
+    | PCopy => exists t', nth_error (thrs s') i = Some t' /\ t_got t' = t_got t ++ [Some (result s)]
+    | _ => result s' = result s
     end.
 Proof. exact collate_steps. Qed.
 Print Assumptions sinc_value_partial_collate_steps.
 
 (* value, part 4: collating slots whose total equals the reduction of the submitted values yields that reduction *)
 Theorem sinc_value_partial_collation :
-  forall (V : Type) (vop : V -> V -> V),
-    (forall a b c : V, vop (vop a b) c = vop a (vop b c)) -> (forall a b : V, vop a b = vop b a) ->
-    forall (sl vs : list V) (e : V),
+  forall (V : Type) (vop : V -> V -> V) (sl vs : list V) (e : V),
       (forall x, vop e x = x) -> reduce V vop sl e = reduce V vop vs e ->
       fold_left (fun r j => vop r (nth j sl e)) (seq 0 (length sl)) e = reduce V vop vs e.
 Proof. exact collate_of_slots. Qed.
@@ -103,9 +101,9 @@ Print Assumptions sinc_value_partial_collation.
 
 (* a sinc created for zero submissions delivers the never-written result buffer, not the initial value *)
 Theorem sinc_value_zero_count_refuted :
-  let s := exec nat Nat.add (start nat true 0%nat 77%nat 1 0 [[Wait nat true]]) [0;0]%nat in
-  exp0 nat s = false /\ over nat s = false /\
-  (exists t, nth_error (thrs nat s) 0 = Some t /\ t_got nat t = [Some 77%nat]) /\ reduce nat Nat.add (submitted nat s) 0%nat = 0%nat.
+  let s := exec nat Nat.add (start nat true 0%nat 77%nat 1 0 [[Wait true]]) [0;0]%nat in
+  exp0 s = false /\ over s = false /\
+  (exists t, nth_error (thrs s) 0 = Some t /\ t_got t = [Some 77%nat]) /\ reduce nat Nat.add (submitted s) 0%nat = 0%nat.
 Proof. exact sinc_value_zero_count_refuted_lemma. Qed.
 Print Assumptions sinc_value_zero_count_refuted.
 
@@ -113,20 +111,20 @@ Print Assumptions sinc_value_zero_count_refuted.
    never-written result buffer happens to hold the old result) *)
 Theorem reset_fresh :
   forall (V : Type) (s : state V) (n : Z) (progs : list (list (op V))),
-    n <> 0%Z -> reset V s n progs = start V (hasdata V s) (initv V s) (result V s) (nslots V s) n progs.
+    n <> 0%Z -> reset V s n progs = start V (hasdata s) (initv s) (result s) (nslots s) n progs.
 Proof. exact reset_fresh_pos. Qed.
 Print Assumptions reset_fresh.
 
 Theorem reset_fresh_zero_after_completion :
   forall (V : Type) (s : state V) (progs : list (list (op V))),
-    ready V s = true -> reset V s 0 progs = start V (hasdata V s) (initv V s) (result V s) (nslots V s) 0 progs.
+    ready s = true -> reset V s 0 progs = start V (hasdata s) (initv s) (result s) (nslots s) 0 progs.
 Proof. exact reset_fresh_zero_complete. Qed.
 Print Assumptions reset_fresh_zero_after_completion.
 
 (* reset 0 of an incomplete sinc leaves ready empty, a fresh sinc with 0 is full (unspecified by the API text) *)
 Theorem reset_zero_incomplete_differs :
   forall (V : Type) (s : state V) (progs : list (list (op V))),
-    ready V s = false ->
-    ready V (reset V s 0 progs) = false /\ ready V (start V (hasdata V s) (initv V s) (result V s) (nslots V s) 0 progs) = true.
+    ready s = false ->
+    ready (reset V s 0 progs) = false /\ ready (start V (hasdata s) (initv s) (result s) (nslots s) 0 progs) = true.
 Proof. exact reset_zero_incomplete_differs_lemma. Qed.
 Print Assumptions reset_zero_incomplete_differs.
